@@ -911,6 +911,44 @@ def _h_defaultdict(*a, **k):
     return NotImplemented
 
 
+class SymSet:
+    """list-backed set: membership by ==, no hashing"""
+
+    def __init__(self, items=()):
+        self.items = []
+        for x in items:
+            self.add(x)
+
+    def __contains__(self, x):
+        for e in self.items:
+            r = e == x
+            if r is not NotImplemented and bool(r):
+                return True
+        return False
+
+    def add(self, x):
+        if x not in self:
+            self.items.append(x)
+
+    def discard(self, x):
+        self.items = [e for e in self.items if not bool(e == x)]
+
+    def __len__(self):
+        return len(self.items)
+
+    def __iter__(self):
+        return iter(list(self.items))
+
+    def __bool__(self):
+        return bool(self.items)
+
+
+def _h_set(*a, **k):
+    if SYM_DICT[0] and not k and len(a) <= 1:
+        return SymSet(*a)
+    return NotImplemented
+
+
 def _h_dict(*a, **k):
     if SYM_DICT[0] and not k and len(a) <= 1:
         from .symcoll import SymDict
@@ -1001,13 +1039,18 @@ def install():
     hook.INT_HANDLERS.append(_h_int)
     hook.FLOAT_HANDLERS.append(_h_float)
     hook.JOIN[0] = lambda parts: join("", parts)
-    for name, h in (("dict", _h_dict), ("defaultdict", _h_defaultdict), ("chr", _h_chr), ("ord", _h_ord), ("len", _h_len), ("bytes", _h_bytes), ("bytearray", _h_bytearray), ("print", _h_print), ("repr", _h_repr), ("hash", _h_hash)):
+    for name, h in (("dict", _h_dict), ("set", _h_set), ("defaultdict", _h_defaultdict), ("chr", _h_chr), ("ord", _h_ord), ("len", _h_len), ("bytes", _h_bytes), ("bytearray", _h_bytearray), ("print", _h_print), ("repr", _h_repr), ("hash", _h_hash)):
         hook.SIMPLE_CALLS.setdefault(name, []).insert(0, h)
     hook.METHOD_HANDLERS.append(_h_method)
 
 
 def _h_method(name, recv, args, kwargs):
     """str methods called on a native receiver with symbolic arguments (e.g. ','.join(parts), text.startswith(sym))"""
+    if name == "get" and type(recv) is dict and args and type(args[0]) is SymStr:
+        for key in recv:
+            if isinstance(key, (_str, SymStr)) and _b(args[0] == key):
+                return recv[key]
+        return args[1] if len(args) > 1 else kwargs.get("default")
     if isinstance(recv, _str) and type(recv) is not SymStr:
         if name == "join" and len(args) == 1:
             parts = list(args[0])
